@@ -18,6 +18,7 @@ SPEC = {
     areas={"kinematics_dynamics"},
     what="kinematics, com_pos, camlight, flex and tendon stages",
     floor_bind=200,
+    floor_frame=5,
     floor_ref=(4, 1),
   ),
   "C02": dict(
@@ -26,6 +27,7 @@ SPEC = {
     areas={"kinematics_dynamics", "passive", "forward"},
     what="inertia, bias force, passive force and smooth acceleration stages",
     floor_bind=290,
+    floor_frame=6,
   ),
   "C03": dict(
     entries=["forward.fwd_actuation", "smooth.transmission", "forward._advance"],
@@ -33,6 +35,7 @@ SPEC = {
     areas={"kinematics_dynamics", "forward"},
     what="transmission, actuator force and activation integration",
     floor_bind=400,
+    floor_frame=9,
   ),
   "C04": dict(
     entries=["collision_driver.collision"],
@@ -47,6 +50,7 @@ SPEC = {
     areas={"constraint_solver"},
     what="constraint row builders",
     floor_bind=560,
+    floor_frame=12,
     floor_ref=(0, 3),
   ),
   "C07": dict(
@@ -55,6 +59,7 @@ SPEC = {
     areas={"sensor"},
     what="sensor stages and energy",
     floor_bind=450,
+    floor_frame=10,
   ),
   "C08": dict(
     entries=["forward.euler", "forward.implicit", "forward.rungekutta4"],
@@ -62,6 +67,7 @@ SPEC = {
     areas={"forward", "kinematics_dynamics"},
     what="integrators and state advance",
     floor_bind=2800,
+    floor_frame=40,
   ),
 }
 
@@ -86,9 +92,13 @@ def run_family(db, res, tier, prop, extra=None):
   if "floor_ref" in spec:
     res.floor("reference-offset decode sites", n1, spec["floor_ref"][0])
     res.floor("reference/current paired-index sites", n2, spec["floor_ref"][1])
+  nfr = r_ref.check_com_frame(res, list(scope))
+  res.extra["com_frame_sites"] = nfr
+  if "floor_frame" in spec:
+    res.floor("subtree_com reads in com-based kernels (R-FRAME.1)", nfr, spec["floor_frame"])
   if extra is not None:
     extra(db, res, tier, scope)
-  res.rule_text = "R-REF: a Model reference field that set_const stores as an offset from a Data base cell is decoded against one of the base cells it was encoded against, and a Data field combined with its same-space reference field (qpos/qpos0, ten_length/tendon_length0, ...) is read at the same element; R-BATCH: every batched Model field the stage kernels touch is indexed by the thread's world index modulo that field's own leading extent; R-SORT: an index whose index space is known (thread index over a model extent, value of an index-valued model array, address + offset) is never used in an array dimension of a different space; R-BIND: each launch formal named after a schema field is bound to that field (or a temp/ctx array/tabled pair), ranks agree, read-only Data formals are not written; R-DISPATCH: every enum member the stage dispatches on is still referenced in the areas where the confirmed baseline handles it"
+  res.rule_text = "R-FRAME.1: a kernel that touches a com-based spatial quantity (cdof, cvel, cacc, cfrc_*, cinert) reads Data.subtree_com only at body_rootid[...] cells (the reference point those quantities are expressed about); R-REF: a Model reference field that set_const stores as an offset from a Data base cell is decoded against one of the base cells it was encoded against, and a Data field combined with its same-space reference field (qpos/qpos0, ten_length/tendon_length0, ...) is read at the same element; R-BATCH: every batched Model field the stage kernels touch is indexed by the thread's world index modulo that field's own leading extent; R-SORT: an index whose index space is known (thread index over a model extent, value of an index-valued model array, address + offset) is never used in an array dimension of a different space; R-BIND: each launch formal named after a schema field is bound to that field (or a temp/ctx array/tabled pair), ranks agree, read-only Data formals are not written; R-DISPATCH: every enum member the stage dispatches on is still referenced in the areas where the confirmed baseline handles it"
   res.explanation = (
     f"Structural necessary conditions of {prop} for the {spec['what']}: the kernels reachable from {', '.join(spec['entries'])} read and write the arrays "
     "they are declared to (a swapped pair of same-typed launch arguments compiles and passes any test that does not vary both fields), no type member lost its handler, and index spaces (body / joint / dof / qpos / geom / ... ids) are not mixed - a bug class that fixtures hide whenever the spaces coincide numerically (hinge-only models have jntid == dofid == qposadr). "
